@@ -375,7 +375,7 @@ PROPS = {
             {"kind": "mc", "module": "MC_Coverage", "cfg": "MC_Coverage.cfg", "workers": 6},
             {"kind": "gentrace", "module": "Gen_Faces", "cfg": {"quick": "Gen_Faces_cov.cfg", "thorough": "Gen_Faces.cfg"}, "scenario": "CONE",
              "trace_module": "Trace_Bmoc", "trace_cfg": "Trace_Bmoc.cfg", "clauses": ["panic", "no_miss"]},
-            {"kind": "rec", "scenario": "CONE", "count": {"quick": 6000, "thorough": 150000}, "trace_module": "Trace_Bmoc", "trace_cfg": "Trace_Bmoc.cfg",
+            {"kind": "rec", "profiles": ["release", "debug"], "other_profile_frac": 0.5, "scenario": "CONE", "count": {"quick": 6000, "thorough": 150000}, "trace_module": "Trace_Bmoc", "trace_cfg": "Trace_Bmoc.cfg",
              "shards": 10, "clauses": ["panic", "no_miss"]},
         ],
     },
@@ -395,7 +395,7 @@ PROPS = {
             {"kind": "mc", "module": "MC_Coverage", "cfg": "MC_Coverage.cfg", "workers": 6},
             {"kind": "gentrace", "module": "Gen_Faces", "cfg": {"quick": "Gen_Faces_cov.cfg", "thorough": "Gen_Faces.cfg"}, "scenario": "CONE",
              "trace_module": "Trace_Bmoc", "trace_cfg": "Trace_Bmoc.cfg", "clauses": ["dmax", "wellformed", "packed", "allsky", "full_truthful", "tight"]},
-            {"kind": "rec", "scenario": "CONE", "count": {"quick": 6000, "thorough": 150000}, "trace_module": "Trace_Bmoc", "trace_cfg": "Trace_Bmoc.cfg",
+            {"kind": "rec", "profiles": ["release", "debug"], "other_profile_frac": 0.5, "scenario": "CONE", "count": {"quick": 6000, "thorough": 150000}, "trace_module": "Trace_Bmoc", "trace_cfg": "Trace_Bmoc.cfg",
              "shards": 10, "clauses": ["dmax", "wellformed", "packed", "allsky", "full_truthful", "tight"]},
         ],
     },
@@ -417,7 +417,7 @@ PROPS = {
             {"kind": "mc", "module": "Lookup", "cfg": "MC_Lookup.cfg", "workers": 2},
             {"kind": "mc", "module": "MC_Geo", "cfg": {"quick": "MC_Geo.cfg", "thorough": "MC_Geo_thorough.cfg"}, "workers": 6},
             {"kind": "gen", "module": "Gen_Lookup", "cfg": "Gen_Lookup.cfg", "scenario": "C16a", "exhaustive": True},
-            {"kind": "rec", "scenario": "C16", "count": {"quick": 8000, "thorough": 200000}, "trace_module": "Trace_Geo", "trace_cfg": "Trace_Geo.cfg"},
+            {"kind": "rec", "profiles": ["release", "debug"], "other_profile_frac": 0.5, "scenario": "C16", "count": {"quick": 8000, "thorough": 200000}, "trace_module": "Trace_Geo", "trace_cfg": "Trace_Geo.cfg"},
         ],
     },
     "C13": {
@@ -433,7 +433,7 @@ PROPS = {
         "assumptions": COV_ASSUME,
         "stages": [
             {"kind": "mc", "module": "MC_Coverage", "cfg": "MC_Coverage.cfg", "workers": 6},
-            {"kind": "rec", "scenario": "C13", "count": {"quick": 6000, "thorough": 150000}, "trace_module": "Trace_Bmoc", "trace_cfg": "Trace_Bmoc.cfg", "shards": 10},
+            {"kind": "rec", "profiles": ["release", "debug"], "other_profile_frac": 0.5, "scenario": "C13", "count": {"quick": 6000, "thorough": 150000}, "trace_module": "Trace_Bmoc", "trace_cfg": "Trace_Bmoc.cfg", "shards": 10},
         ],
     },
     "C12": {
@@ -449,7 +449,7 @@ PROPS = {
         "assumptions": COV_ASSUME,
         "stages": [
             {"kind": "mc", "module": "MC_Geo", "cfg": {"quick": "MC_Geo.cfg", "thorough": "MC_Geo_thorough.cfg"}, "workers": 6},
-            {"kind": "rec", "scenario": "C12", "count": {"quick": 5000, "thorough": 120000}, "trace_module": "Trace_Bmoc", "trace_cfg": "Trace_Bmoc.cfg", "shards": 10},
+            {"kind": "rec", "profiles": ["release", "debug"], "other_profile_frac": 0.5, "scenario": "C12", "count": {"quick": 5000, "thorough": 120000}, "trace_module": "Trace_Bmoc", "trace_cfg": "Trace_Bmoc.cfg", "shards": 10},
         ],
     },
 }
